@@ -76,9 +76,9 @@ CLAIMED = {
             "For each enumerated type set / insertion-order pair / jit history z3 proves each loss equals its definition for ALL predictions and targets, "
             "is 0 on equal arguments, >= 0, invariant under every g, and the per-step losses sum to the total.",
             "Reals; batch<=2, steps<=2(3), tiny images; reduce='max' decided under a strict-maximum assumption.", "4/C18"),
-    "C19": (XH, "CrossHair (per-path z3) on the real TrainLoss/ValLoss/EpochStop.stop: bounded symbolic histories vs. a reference state machine + one inductive step from an arbitrary state",
+    "C19": (XH, "CrossHair (per-path z3) on the real TrainLoss/ValLoss/EpochStop.stop: bounded symbolic histories vs. a reference state machine + one inductive step from an arbitrary state; CrossHair on the source of ml.train (cut out of training.py on every run, environment stubbed, real stopping conditions) for bounded symbolic loss histories",
             "CrossHair confirms over all paths that for symbolic loss histories (len<=3 quick, <=5 thorough), patience and min_delta the real conditions stop at exactly the "
-            "specified epoch and hand back the best model, for float and non-float scalar representations; the inductive step covers any history length.",
+            "specified epoch and hand back the best model, for float and non-float scalar representations; the inductive step covers any history length; the real ml.train loop runs exactly to the specified stopping epoch and returns the best epoch's model (len<=3 (5), patience<=2).",
             "Bounds: len<=3 (5), patience<=3 (5), losses in [0,100]; non-float scalars modelled by a wrapper + float() stub, validated with genuine np.float32/jax scalars.  "
             "Float rounding and non-finite losses are outside CrossHair's real-valued floats: the check adds concrete runs with genuine float32 / bfloat16 scalars (one-ulp improvements, NaN / inf after a finite first epoch).", "4/C19"),
     "C08": (JX, "symbolic execution of the jaxprs of the real norm / nonlinearity / pooling blocks with symbolic parameters; exact argmax encoding (ITE) under tie-freeness; eigh as a contract stub; z3 (QF_UFNRA)",
@@ -98,11 +98,11 @@ CLAIMED = {
             "For each enumerated constructor cell the traced output has exactly the requested types, order, channel counts, spatial shape, D and flags (exact for all "
             "inputs: JAX shapes are value-independent); in conventional mode z3 proves every component of every type is the CNN output channel off_t + c*D^k + i.",
             "Structural half involves no SMT query (stated in evidence); BatchNorm off; cells sampled (pairwise core + seeded).", "4/C20"),
-    "C09": (JX, "inductive step: jaxpr of the real ml.train_step, sliced by jax's dead-code elimination to the new filter-bank leaves and their optimiser moments, executed symbolically (filter bank symbolic); z3 (QF_NRA); dependency set of the slice read from the jaxpr",
+    "C09": (JX, "inductive step: jaxpr of the real ml.train_step, sliced by jax's dead-code elimination to the new filter-bank leaves and their optimiser moments, executed symbolically (filter bank symbolic); z3 (QF_NRA); dependency set of the slice read from the jaxpr; the same for the jaxpr of the whole ml.train loop (EpochStop)",
             "For each enumerated (model, optimiser, step count) z3 proves that one real train_step from an arbitrary state with zero filter moments maps every "
             "invariant-filter leaf to a common rescaling of itself (identically for sgd/adam) with zero new moments, and the slice depends on no data / other "
             "parameter (d loss/d filters == 0): an inductive invariant covering histories of any length; equivariance for all free-parameter values is C07.",
-            "Optimisers {sgd, momentum, adam, adamw} (+lion, rmsprop, adagrad thorough); ml.train's loop itself is an argument (iterates train_step, returns an iterate).", "4/C09"),
+            "Optimisers {sgd, momentum, adam, adamw} (+lion, rmsprop, adagrad thorough); the whole ml.train loop is traced as one jaxpr under EpochStop only (epochs<=2 quick, 3 thorough; 2 batches per epoch): returned filter leaves depend on the initial ones alone and are a common rescaling; under TrainLoss/ValLoss the loop's control flow depends on loss values (C19).", "4/C09"),
 }
 
 NOT_YET = {}
